@@ -40,6 +40,8 @@ StoreMatches(s, js) ==
             /\ HooksOf(j.hooks) = ModelHooks(s[r].hooks)
        ELSE s[r].st = "none"
 
+StoreOfJ(js) == [r \in Rev |-> IF ToString(r) \in DOMAIN js THEN MkRec(js[ToString(r)].st, js[ToString(r)].chart) ELSE NoRec]
+
 ObjOf(j) == [f1 |-> j.f1, f2 |-> j.f2, own |-> j.own, pol |-> j.pol]
 
 ClusterOf(jc) == [o \in TObjs |-> IF o \in DOMAIN jc THEN ObjOf(jc[o]) ELSE Absent]
@@ -63,7 +65,7 @@ LabOf(e) == Lab(e.proc, "call", e.kind, e.verb, e.id, e.ok, e.inj)
 TraceInit ==
   /\ l = 2
   /\ Trace[1].ev = "reset"
-  /\ store = [r \in Rev |-> NoRec]
+  /\ store = StoreOfJ(Trace[1].state.store)
   /\ cluster = ClusterOf(Trace[1].state.cluster)
   /\ pc = [p \in Procs |-> "idle"]
   /\ op = [p \in Procs |-> NoOp]
@@ -75,7 +77,7 @@ TraceInit ==
   /\ kfg = {}
 
 TraceReset(e) ==
-  /\ store' = [r \in Rev |-> NoRec]
+  /\ store' = StoreOfJ(e.state.store)
   /\ cluster' = ClusterOf(e.state.cluster)
   /\ pc' = [p \in Procs |-> "idle"]
   /\ op' = [p \in Procs |-> NoOp]
